@@ -400,6 +400,17 @@ func (s *Server) handleWrapped(request *RequestContext, item *RequestBatchItem) 
 	}
 
 	resp, err = handler(request, item)
+	if err != nil {
+		// the error is a value of the application's: ask it for its text and reason here, where a panic in
+		// its methods (a typed nil pointer, a broken Error method) is recovered like a panic of the handler
+		reason := RESULT_REASON_GENERAL_FAILURE
+		if protoErr, ok := err.(Error); ok {
+			reason = protoErr.ResultReason()
+		}
+
+		err = wrapError(errors.New(err.Error()), reason)
+	}
+
 	return
 }
 
